@@ -238,6 +238,32 @@ def bare_dist_case(col, rng):
     col.add({"sig": "native::totals::bare_distribution_node", "what": bad, "input": {"node": "Dist without variable, at = Calc(3 mu)"}} if bad else None)
 
 
+def host_state_case(col, rng):
+    """log-densities held as HOST (NumPy) arrays - a state fetched with jax.device_get and restored - are reduced like device arrays: after the restore one
+    variable is re-assigned, so only some distribution nodes are re-evaluated and the totals add NumPy and JAX log-densities"""
+    for per_obs in (True, False):
+        model, X, K = build(rng, per_obs, False, False)
+        bpri = lsl.Dist(tfd.Normal, loc=0.0, scale=model.vars["tau"])
+        nodes, vars_ = model.pop_nodes_and_vars()
+        vars_["beta"].dist_node = bpri
+        bpri.per_obs = per_obs
+        model = lsl.GraphBuilder().add(vars_["y"], vars_["free"]).build_model()
+        model.state = jax.device_get(model.state)
+        model.vars["mu"].value = np.float32(rng.normal())
+        v = {k: np.asarray(model.vars[k].value, dtype=np.float64) for k in ("tau", "mu", "beta", "y", "free")}
+        lp = {"tau": float(tfd.InverseGamma(2.0, 1.0).log_prob(v["tau"])), "mu": float(tfd.Normal(0.0, v["tau"]).log_prob(v["mu"])),
+              "beta": float(np.sum(tfd.Normal(0.0, v["tau"]).log_prob(v["beta"]))), "free": float(tfd.Normal(0.0, 1.0).log_prob(v["free"])),
+              "y": float(np.sum(tfd.Normal(v["mu"] + np.asarray(X, np.float64) @ v["beta"], 1.3).log_prob(v["y"])))}
+        want = {"log_prob": sum(lp.values()), "log_lik": lp["y"], "log_prior": lp["tau"] + lp["mu"] + lp["beta"]}
+        for nm, w in want.items():
+            got = np.asarray(getattr(model, nm))
+            if got.shape != () or not np.isclose(float(got), w, rtol=2e-4, atol=2e-3):
+                col.add({"sig": f"native::totals::host_arrays::{nm}", "what": f"{nm} is {np.array2string(got, precision=4)} (shape {got.shape}) after restoring a host-side state and re-assigning mu; the sum of the log-densities is {w:.5f}",
+                         "input": {"per_obs": per_obs, "state": "jax.device_get(model.state)"}})
+                return
+    col.add(None)
+
+
 def repeated_build_case(col, rng):
     """one builder with user-supplied total nodes, built three times (copy=True, copy=True, copy=False): every model forwards the user nodes"""
     mu = lsl.param(np.float32(rng.normal()), lsl.Dist(tfd.Normal, loc=0.0, scale=2.0), name="mu")
@@ -286,6 +312,10 @@ def bounded(tier, seed):
     except Exception as e:
         col.add({"sig": f"native::totals::exception::{type(e).__name__}", "what": str(e)[:200], "input": {"scenario": "values assigned outside a model"}})
     try:
+        host_state_case(col, rng)
+    except Exception as e:
+        col.add({"sig": f"native::totals::exception::{type(e).__name__}", "what": str(e)[:200], "input": {"scenario": "host-side state restored"}})
+    try:
         repeated_build_case(col, rng)
     except Exception as e:
         col.add({"sig": f"native::totals::exception::{type(e).__name__}", "what": str(e)[:200], "input": {"scenario": "repeated build with user nodes"}})
@@ -309,5 +339,5 @@ def bounded(tier, seed):
             "rule": (CORE_RULE + "; " + f"BOUNDED: hierarchical model family (InverseGamma variance with/without auto-transform, Normal mean, degenerate-MVN coefficient prior via from_penalty, weak linear "
                      f"predictor, vector Normal response stored per observation or summed, an unflagged distributed variable, optional user log-lik node) x {reps} seeded value draws, each "
                      "checked after build and after re-assigning values: log_prob / log_lik / log_prior against direct TFP evaluation; one DistRegBuilder model (flags exactly-one, "
-                     f"prob = lik + prior = sum of distribution nodes); values assigned while the graph is outside a model (before build, after pop_nodes_and_vars) then built; literal hyper-parameters re-assigned through their anonymous Value nodes; a distribution node that belongs to no variable. seed={seed}"),
+                     f"prob = lik + prior = sum of distribution nodes); values assigned while the graph is outside a model (before build, after pop_nodes_and_vars) then built; literal hyper-parameters re-assigned through their anonymous Value nodes; a distribution node that belongs to no variable; a host-side (NumPy) state restored and one variable re-assigned (totals mix NumPy and JAX log-densities). seed={seed}"),
             "samples": [{"per_obs": False, "auto_transform": True, "user_lik_node": False}], "exhaustive": False, "violations": col.violations}
